@@ -235,6 +235,11 @@ def monitors(r):
             consulted[tid] = ans
             if ans:
                 pipe -= 1
+        elif body == "ret done" and cur_call.get(tid, "").startswith("deliver"):
+            # the delivery has returned: whatever it does to announce itself has been done
+            sg = int(cur_call[tid].split()[1])
+            if sg in unreported:
+                unreported[sg] = True
         elif body.startswith("yield "):
             sg = int(body.split()[1])
             yielded[sg] = yielded.get(sg, 0) + 1
